@@ -569,3 +569,24 @@ V("C08-z-wide-probe-removed", "C08", "C08.5",
   (DS, "    g_new = [ev_f[idx](t_root + (t_next - t_prev) * D.epsilon(roots[0].dtype) ** 0.5) for idx, t_root in enumerate(roots)]\n", "    g_new = [ev_f[idx](t_root + (t_next - t_prev) * D.epsilon(roots[0].dtype) ** 0.75) for idx, t_root in enumerate(roots)]\n"))
 V("C17-v-constructor-keeps-references", "C17", "C17.9", (INT, "        self.p0 = D.ar_numpy.copy(p0)\n", "        self.p0 = D.ar_numpy.asarray(p0)\n"))
 V("C09-z-event-attributes-memoised", "C09", "C09.9", (DS, "def prepare_events(events, backend_like):\n", "import functools\n\n\n@functools.lru_cache(maxsize=8)\ndef _terminal_flags(events):\n    return tuple(bool(getattr(ev, \"is_terminal\", False)) for ev in events)\n\n\ndef prepare_events(events, backend_like):\n"))
+
+# ---- round 12 rules ------------------------------------------------------------------------------
+V("C18-w-callbacks-not-copied", "C18", "C18.12", (DS, "    callbacks = list(options.get(\"callbacks\", []))\n", "    callbacks = options.get(\"callbacks\", [])\n"))
+V("C18-ws-callbacks-copied-otherwise", "C18", "silent", (DS, "    callbacks = list(options.get(\"callbacks\", []))\n", "    callbacks = [cb for cb in options.get(\"callbacks\", [])]\n"))
+V("C15-x-fd-jacobian-cache-without-args", "C15", "C15.9",
+  (OPT, "def nonlinear_roots(f, x0,", "_jac_cache = dict()\n\n\ndef nonlinear_roots(f, x0,"),
+  (OPT, "    nfev = 1\n    njev = 0\n", "    nfev = 1\n    njev = 0\n    if f in _jac_cache:\n        jac = _jac_cache[f]\n    _jac_cache[f] = jac\n"))
+V("C10-z-mask-aliased", "C10", "C10.7", (ITY, "self.staggered_mask = D.ar_numpy.astype(D.ar_numpy.asarray(staggered_mask, like=self.tableau_intermediate), D.autoray.to_backend_dtype('bool', like=self.tableau_intermediate))",
+                                       "self.staggered_mask = D.ar_numpy.asarray(staggered_mask, dtype=D.autoray.to_backend_dtype('bool', like=self.tableau_intermediate), like=self.tableau_intermediate)"))
+V("C05-y-atol-accumulated-in-place", "C05", "C05.12", (TPL, "            total_error_tolerance = (atol + rtol * self.solver_dict[\"system_scaling\"])\n", "            total_error_tolerance = atol\n            total_error_tolerance += rtol * self.solver_dict[\"system_scaling\"]\n"))
+V("C12-w-richardson-dt-in-place", "C12", "C12.13", (ITY, "next_timestep = D.ar_numpy.copy(dt0)", "next_timestep = dt0"))
+V("C01-x-stage-clock-aliases-time", "C01", "C01.12",
+  (ITY, "        current_time = D.ar_numpy.copy(initial_time)\n", "        current_time = D.ar_numpy.asarray(initial_time)\n"),
+  (ITY, "            current_time = current_time + timestep * self.tableau_intermediate[stage, 1]\n", "            current_time += timestep * self.tableau_intermediate[stage, 1]\n"))
+V("C04-z-dt-written-in-place", "C04", "C04.8", (DS, "        self.__dt = D.ar_numpy.asarray(new_dt, **self.__array_con_kwargs)\n        self.__fix_dt_dir(self.tf, self.t0)\n        return self.__dt\n",
+  "        self.__dt[...] = new_dt\n        self.__fix_dt_dir(self.tf, self.t0)\n        return self.__dt\n"))
+V("C04-z2-orientation-in-place", "C04", "C04.9", (DS, "            self.__dt = -self.__dt\n", "            self.__dt *= -1\n"))
+V("C03-y-trim-dropped", "C03", "C03.14", (DS, "            self.__trim_soln_space()\n", "            pass\n"))
+V("C07-w-wrapper-memoised-in-default-dict", "C07", "C07.12", (DS, "def prepare_events(events, backend_like):\n", "def _event_wrapper(ev, sol, consts, _memo={}):\n    if ev not in _memo:\n        _memo[ev] = lambda t: ev(t, sol(t), **consts)\n    return _memo[ev]\n\n\ndef prepare_events(events, backend_like):\n"))
+V("C02-y-stage-storage-pooled", "C02", "C02.9", (ITY, "        self.stage_values = D.ar_numpy.zeros((*self.dim, self.stages), **self.array_constructor_kwargs)\n", "        self.stage_values = _STAGE_POOL.setdefault((tuple(self.dim), self.stages), D.ar_numpy.zeros((*self.dim, self.stages), **self.array_constructor_kwargs))\n"),
+  (ITY, "class RungeKuttaIntegrator(TableauIntegrator, abc.ABC):\n", "_STAGE_POOL = {}\n\n\nclass RungeKuttaIntegrator(TableauIntegrator, abc.ABC):\n"))
